@@ -80,6 +80,16 @@ def gen_pairs(rng, n):
             if pl == 7:
                 base['Peaking Fuel Cost Rate'] = 0.03
                 part['Peaking Fuel Cost Rate'] = 0.03 * k
+            if rng.random() < 0.4 and pl in (1, 2, 3, 4, 9):   # (chiller, heat-pump and district-heating plants add correlated costs that are not inputs)
+                # the same relation with every cost given by component instead of by total (the totals are then sums of scaled parts)
+                comp = {'Surface Plant Capital Cost': rng.choice([12, 30]), 'Field Gathering System Capital Cost': rng.choice([0.8, 2]), 'Exploration Capital Cost': rng.choice([1, 3.5]),
+                        'Wellfield O&M Cost': rng.choice([0.2, 0.6]), 'Surface Plant O&M Cost': rng.choice([0.4, 1.1]), 'Water Cost': rng.choice([0.05, 0.2])}
+                for d_ in (base, part):
+                    d_.pop('Total Capital Cost', None)
+                    d_.pop('Total O&M Cost', None)
+                    d_['Surface Piping Length'] = 0     # (the pipeline cost is length x a built-in unit cost, not a cost input)
+                base.update(comp)
+                part.update({kk: vv * k for kk, vv in comp.items()})
         elif rel == 'price':
             for prod, a in (('Electricity', 0.055), ('Heat', 0.025), ('Cooling', 0.03)):
                 base[f'Starting {prod} Sale Price'] = a
@@ -101,8 +111,15 @@ def gen_pairs(rng, n):
             part.update({'AddOn Nickname 1': 'nothing', 'AddOn CAPEX 1': 0, 'AddOn OPEX 1': 0, 'AddOn Electricity Gained 1': 0,
                          'AddOn Heat Gained 1': 0, 'AddOn Profit Gained 1': 0})
         elif rel == 'itc0':
+            if rng.random() < 0.7:
+                # the zero-rate credit must change nothing also when grants / incentives / fees are present
+                base.update({'One-time Grants Etc': rng.choice([2, 5.5]), 'Other Incentives': rng.choice([0, 1.5]), 'One-time Flat License Fees Etc': rng.choice([0, 0.75])})
+                part = dict(base)
             part['Investment Tax Credit Rate'] = 0
         elif rel == 'grant0':
+            if rng.random() < 0.5:
+                base['Investment Tax Credit Rate'] = rng.choice([0.1, 0.3])
+                part = dict(base)
             part['One-time Grants Etc'] = 0
             if rng.random() < 0.5:
                 part['Other Incentives'] = 0
